@@ -14,7 +14,7 @@ class Contract:
                  transparent=False, props=(), locals=None, gen=None, hints=None, consts=None, canary=None,
                  trusted=False, note="", bind=None, known=None, pure=True, native_args=None, decreases=None,
                  ghost=None, native=True, slice=None, path_limit=None, timeout=None, native_ensures=None,
-                 bounded_only=False, assumes=(), cases=None, params=None):
+                 bounded_only=False, assumes=(), cases=None, params=None, shards=1, reveal=()):
         self.qual = qual
         self.args = OrderedDict(args)  # name -> type string
         self.returns = returns
@@ -45,6 +45,8 @@ class Contract:
         self.bounded_only = bounded_only
         self.assumes = list(assumes)
         self.cases = cases
+        self.shards = shards
+        self.reveal = list(reveal)
         self.params = params  # parameter names of an external callee that has no source in /repo (always trusted)  # extra assumptions (listed in evidence), e.g. about opaque callees
 
     @property
@@ -57,7 +59,8 @@ class Contract:
 
 
 class SpecFn:
-    def __init__(self, fn, sig):
+    def __init__(self, fn, sig, opaque=False):
+        self.opaque = opaque
         self.fn = fn
         self.name = fn.__name__
         a, r = sig.split("->")
@@ -115,9 +118,10 @@ def contract(qual, args, **kw):
     return c
 
 
-def spec(sig):
+def spec(sig, opaque=False):
+    """opaque=True: the solver sees the function as uninterpreted unless the contract lists it under reveal=[...]"""
     def deco(fn):
-        s = SpecFn(fn, sig)
+        s = SpecFn(fn, sig, opaque)
         SPECS[s.name] = s
         return s
 
